@@ -11,7 +11,7 @@ use serde_json::json;
 
 pub fn profile() -> Profile {
     Profile { min_axes: 1, max_axes: 3, max_glyphs: 2, min_glyphs: 1, outlines: false, cubic: false, components: 0, transforms: false, mixed: false, sparse: 0,
-        order_variety: false, non_export: false, metrics_class_a: false, vertical: false, half_coords: false, maps: true, awkward_axes: true, multi_codepoints: false, ps_names: false, anchors: false, kerning: false, instances: true, flat_maps: true }
+        order_variety: false, non_export: false, metrics_class_a: false, vertical: false, half_coords: false, maps: true, awkward_axes: true, multi_codepoints: false, ps_names: false, anchors: false, kerning: false, instances: true, flat_maps: true, point_axis: true }
 }
 
 fn seg_apply(map: &[(f64, f64)], v: f64) -> (f64, f64) {
@@ -45,7 +45,9 @@ pub fn check_fonts(ctx: &Ctx, genome: &[u16]) -> CaseReport {
     let f = &b.font;
     let font = match Font::new(&b.bytes) { Ok(x) => x, Err(e) => { rep.fail("output-unparseable", e); attach_source(&mut rep, &b); return rep; } };
     let axes = font.axes();
-    if axes.len() != f.axes.len() { rep.fail("fvar-axis-count", format!("{} vs {}", axes.len(), f.axes.len())); attach_source(&mut rep, &b); return rep; }
+    let model_axes: Vec<&Axis> = f.var_axes();
+    if axes.len() != model_axes.len() { rep.fail("fvar-axis-count", format!("{} vs {}", axes.len(), model_axes.len())); attach_source(&mut rep, &b); return rep; }
+    if f.axes.iter().any(|a| a.is_point()) { rep.class("has-point-axis"); }
     // avar maps
     let mut maps: Vec<Vec<(f64, f64)>> = vec![vec![]; axes.len()];
     if let Ok(avar) = font.f.avar() {
@@ -62,7 +64,7 @@ pub fn check_fonts(ctx: &Ctx, genome: &[u16]) -> CaseReport {
     }
     let mut g = Gen::new(genome);
     let mut nontrivial = false;
-    for (i, a) in f.axes.iter().enumerate() {
+    for (i, a) in model_axes.iter().enumerate() {
         let (tag, mn, df, mx) = &axes[i];
         if *tag != a.tag { rep.fail("fvar-axis-order-or-tag", format!("{tag} vs {}", a.tag)); continue; }
         if (*mn, *df, *mx) != (a.u_min(), a.u_default(), a.u_max()) { rep.fail("fvar-axis-bounds", format!("{tag}: fvar ({mn}, {df}, {mx}) vs source ({}, {}, {})", a.u_min(), a.u_default(), a.u_max())); continue; }
@@ -87,8 +89,9 @@ pub fn check_fonts(ctx: &Ctx, genome: &[u16]) -> CaseReport {
                 let (_, mn, _, mx) = &axes[i];
                 if v < *mn - 1e-9 || v > *mx + 1e-9 { rep.fail("instance-coordinate-outside-axis-range", format!("instance {k} axis {i}: {v} not in [{mn}, {mx}]")); }
                 if let Some(mi) = f.instances.get(k) {
-                    let a = &f.axes[i];
-                    let d = a.norm_to_design(mi.norm[i]);
+                    let a = model_axes[i];
+                    let full_i = f.axes.iter().position(|x| x.tag == a.tag).unwrap();
+                    let d = a.norm_to_design(mi.norm[full_i]);
                     // the user value must map back to the design value of the source
                     if (a.user_to_design(v) - d).abs() > (a.d_above + a.d_below) / 16384.0 + 1e-6 { rep.fail("instance-coordinate-differs-from-source", format!("instance {k} axis {}: fvar user {v} maps to design {} but source says {d}", a.tag, a.user_to_design(v))); }
                 }
